@@ -328,7 +328,6 @@ func (p *Proxy) handleCONNECT(r responder.Responder, proxyReq *http.Request) err
 	// Create a buffered reader for the client connection. This is required to
 	// use http package functions with this connection.
 	connReader := bufio.NewReader(tlsConn)
-	responder := responder.NewRawHTTPResponder(tlsConn)
 
 	slog.Debug("Entering request loop for CONNECT tunnel", "host", proxyReq.Host)
 	for {
@@ -344,7 +343,10 @@ func (p *Proxy) handleCONNECT(r responder.Responder, proxyReq *http.Request) err
 		}
 
 		req.Close = true
-		if err := p.handleHTTP(responder, req); err != nil {
+		// Each exchange gets a responder of its own: headers, status and length set for
+		// one response must never carry over to the next response on the same tunnel.
+		exchange := responder.NewRawHTTPResponder(tlsConn)
+		if err := p.handleHTTP(exchange, req); err != nil {
 			slog.Error("Error processing HTTP request in CONNECT tunnel", "host", proxyReq.Host, "error", err)
 		}
 	}
